@@ -5,6 +5,7 @@ import (
 	"go/ast"
 	"go/token"
 	"go/types"
+	"sort"
 	"strings"
 
 	"golang.org/x/tools/go/cfg"
@@ -807,151 +808,98 @@ func checkAuthorizeDecision(r *Run, p *Prog) {
 	if auth == nil {
 		r.Undecide("C05.R6: Gate.Authorize not found")
 	} else {
-		c := p.CFG(auth)
 		var recv types.Object
 		if auth.Decl.Recv != nil && len(auth.Decl.Recv.List[0].Names) == 1 {
 			recv = auth.Pkg.TypesInfo.Defs[auth.Decl.Recv.List[0].Names[0]]
 		}
-		isCurr := func(e ast.Expr) bool {
-			sel, ok := ast.Unparen(e).(*ast.SelectorExpr)
-			return ok && sel.Sel.Name == "curr"
-		}
-		holder := c.EdgesEstablishing(func(atom ast.Expr, val bool) bool {
-			be, ok := ast.Unparen(atom).(*ast.BinaryExpr)
-			if !ok || (be.Op != token.EQL && be.Op != token.NEQ) {
-				return false
-			}
-			if !((isCurr(be.X) && objOf(auth, be.Y) == recv) || (isCurr(be.Y) && objOf(auth, be.X) == recv)) {
-				return false
-			}
-			return (be.Op == token.EQL) == val
-		})
-		isAuthOf := func(e ast.Expr, ofRecv bool) bool {
-			sel, ok := ast.Unparen(e).(*ast.SelectorExpr)
-			if !ok || sel.Sel.Name != "authority" {
-				return false
-			}
-			if ofRecv {
-				return objOf(auth, sel.X) == recv
-			}
-			return isCurr(sel.X)
-		}
-		outranks := c.EdgesEstablishing(func(atom ast.Expr, val bool) bool {
-			be, ok := ast.Unparen(atom).(*ast.BinaryExpr)
+		// the three things the decision may depend on, however it is written down
+		classify := func(ev *ttEval, st *ttState, fn *FuncNode, e ast.Expr) (string, bool, bool) {
+			be, ok := ast.Unparen(e).(*ast.BinaryExpr)
 			if !ok {
-				return false
+				return "", false, false
 			}
-			switch {
-			case isAuthOf(be.X, true) && isAuthOf(be.Y, false):
-				return (be.Op == token.GEQ && val) || (be.Op == token.LSS && !val)
-			case isAuthOf(be.X, false) && isAuthOf(be.Y, true):
-				return (be.Op == token.LEQ && val) || (be.Op == token.GTR && !val)
+			isRecv := func(x ast.Expr) bool {
+				f2, x2 := ev.resolve(st, fn, x)
+				return objOf(f2, x2) == recv && recv != nil
 			}
-			return false
-		})
-		exclusive := c.EdgesEstablishing(func(atom ast.Expr, val bool) bool {
-			be, ok := ast.Unparen(atom).(*ast.BinaryExpr)
-			if !ok || (be.Op != token.EQL && be.Op != token.NEQ) {
-				return false
+			isCurr := func(x ast.Expr) bool {
+				_, x2 := ev.resolve(st, fn, x)
+				sel, ok := ast.Unparen(x2).(*ast.SelectorExpr)
+				return ok && sel.Sel.Name == "curr"
 			}
-			isExcl := func(e ast.Expr) bool {
-				sel, ok := ast.Unparen(e).(*ast.SelectorExpr)
+			authOf := func(x ast.Expr) string {
+				sel, ok := ast.Unparen(x).(*ast.SelectorExpr)
+				if !ok || sel.Sel.Name != "authority" {
+					return ""
+				}
+				switch {
+				case isRecv(sel.X):
+					return "gate"
+				case isCurr(sel.X):
+					return "curr"
+				}
+				return ""
+			}
+			isExcl := func(x ast.Expr) bool {
+				sel, ok := ast.Unparen(x).(*ast.SelectorExpr)
 				return ok && sel.Sel.Name == "ConcurrencyExclusive"
 			}
-			if !isExcl(be.X) && !isExcl(be.Y) {
-				return false
-			}
-			return (be.Op == token.EQL) == val
-		})
-		succ := func(vis map[Point]bool, q *Query) []string {
-			for _, ex := range c.Exits() {
-				if ex.Return != nil && vis[ex.P] && mayReturnNilError(auth, ex.Return) {
-					return q.PathTo(ex.P)
+			switch be.Op {
+			case token.EQL, token.NEQ:
+				if isExcl(be.X) || isExcl(be.Y) {
+					return "exclusive", be.Op == token.NEQ, true
+				}
+				if (isRecv(be.X) && isCurr(be.Y)) || (isRecv(be.Y) && isCurr(be.X)) {
+					return "holder", be.Op == token.NEQ, true
+				}
+			case token.GEQ, token.LSS, token.LEQ, token.GTR:
+				a, b := authOf(be.X), authOf(be.Y)
+				switch {
+				case a == "gate" && b == "curr" && (be.Op == token.GEQ || be.Op == token.LSS):
+					return "outranks", be.Op == token.LSS, true
+				case a == "curr" && b == "gate" && (be.Op == token.LEQ || be.Op == token.GTR):
+					return "outranks", be.Op == token.GTR, true
 				}
 			}
-			return nil
+			return "", false, false
 		}
-		both := map[edge]bool{}
-		for e := range holder {
-			both[e] = true
-		}
-		for e := range outranks {
-			both[e] = true
-		}
-		q, vis := c.ReachAvoiding([]Point{c.Entry()}, both, nil)
-		path := succ(vis, q)
-		r.ObPath("C05.R6.decide", "Gate.Authorize succeeds only for the current holder or a gate that outranks it", p.Position(auth.Pos()), len(holder) > 0 && len(outranks) > 0 && path == nil,
-			"the resource is handed out on a path that established neither: a writer that is not in control writes", path)
-		// under exclusive concurrency only the holder: an "outranks" edge counts only on a
-		// path on which "not exclusive" was established (by an earlier edge or the same one)
-		nonExclusive := c.EdgesEstablishing(func(atom ast.Expr, val bool) bool {
-			be, ok := ast.Unparen(atom).(*ast.BinaryExpr)
-			if !ok || (be.Op != token.EQL && be.Op != token.NEQ) {
-				return false
+		outcome := func(fn *FuncNode, ret *ast.ReturnStmt, results []ttVal) string {
+			switch ttErrOutcome(ret, results) {
+			case "ok":
+				return "authorized"
+			case "fail":
+				return "refused"
 			}
-			isExcl := func(e ast.Expr) bool {
-				sel, ok := ast.Unparen(e).(*ast.SelectorExpr)
-				return ok && sel.Sel.Name == "ConcurrencyExclusive"
-			}
-			if !isExcl(be.X) && !isExcl(be.Y) {
-				return false
-			}
-			return (be.Op == token.EQL) != val
-		})
-		type st struct {
-			pt     Point
-			nonExc bool
+			return "delegated"
 		}
-		seen := map[st]bool{}
-		parent := map[st]st{}
-		start := st{c.Entry(), false}
-		seen[start] = true
-		work := []st{start}
-		var p2 []string
-		for len(work) > 0 && p2 == nil {
-			cur := work[len(work)-1]
-			work = work[:len(work)-1]
-			b, idx := cur.pt.B, cur.pt.I
-			if idx >= 0 && idx < len(b.Nodes) {
-				if ret, ok := b.Nodes[idx].(*ast.ReturnStmt); ok {
-					if mayReturnNilError(auth, ret) {
-						for x, ok := cur, true; ok && len(p2) < 30; x, ok = parent[x] {
-							if x.pt.I >= 0 && x.pt.I < len(x.pt.B.Nodes) {
-								p2 = append([]string{p.Position(x.pt.B.Nodes[x.pt.I].Pos())}, p2...)
-							}
-						}
-					}
+		atoms := []string{"exclusive", "holder", "outranks"}
+		table, bad := ttTable(p, auth, atoms, classify, outcome, false)
+		if bad != "" {
+			r.Undecide("C05.R6: Gate.Authorize could not be evaluated: %s", bad)
+		} else {
+			var wrongAny, wrongExcl []string
+			sawAuthorized := false
+			for mask, outs := range table {
+				excl, holder, outranks := mask&1 != 0, mask&2 != 0, mask&4 != 0
+				if !outs["authorized"] {
 					continue
 				}
-			}
-			push := func(to st) {
-				if !seen[to] {
-					seen[to] = true
-					parent[to] = cur
-					work = append(work, to)
+				sawAuthorized = true
+				desc := fmt.Sprintf("exclusive=%v holder=%v outranks=%v", excl, holder, outranks)
+				if !holder && !outranks {
+					wrongAny = append(wrongAny, desc)
+				}
+				if excl && !holder {
+					wrongExcl = append(wrongExcl, desc)
 				}
 			}
-			if idx+1 < len(b.Nodes) {
-				push(st{Point{b, idx + 1}, cur.nonExc})
-				continue
-			}
-			for si, succ := range b.Succs {
-				e := edge{b, si}
-				ne := cur.nonExc
-				if nonExclusive[e] {
-					ne = true
-				}
-				if exclusive[e] {
-					ne = false
-				}
-				if holder[e] || (outranks[e] && ne) {
-					continue
-				}
-				push(st{Point{succ, -1}, ne})
-			}
+			sort.Strings(wrongAny)
+			sort.Strings(wrongExcl)
+			r.Ob("C05.R6.decide", "Gate.Authorize succeeds only for the current holder or a gate that outranks it", p.Position(auth.Pos()), sawAuthorized && len(wrongAny) == 0,
+				"the resource is handed out when "+strings.Join(wrongAny, "; ")+": a writer that is not in control writes (truth table over holder / outranks / exclusive, all 8 cases)")
+			r.Ob("C05.R6.decide", "under exclusive concurrency Gate.Authorize succeeds only for the current holder", p.Position(auth.Pos()), sawAuthorized && len(wrongExcl) == 0,
+				"with exclusive concurrency the resource is handed out when "+strings.Join(wrongExcl, "; "))
 		}
-		r.ObPath("C05.R6.decide", "under exclusive concurrency Gate.Authorize succeeds only for the current holder", p.Position(auth.Pos()), len(exclusive) > 0 && p2 == nil,
-			"with exclusive concurrency an equal-authority gate that is not the holder must be refused", p2)
 	}
 	og := p.Func(ctlPkg, "Controller", "OpenGate")
 	if og == nil {
